@@ -79,6 +79,18 @@ type Filter struct {
 	Ranges []Range
 }
 
+// SearchArgs gives a field BELOW the root arguments of every composite
+// shape: an input object, a list of input objects, a list of lists, lists of
+// scalars and enums (the root field `items` has them only inside Filter).
+type SearchArgs struct {
+	Filter  *Filter
+	Filters *[]Filter
+	Matrix  *[][]int64
+	Ids     *[]int64
+	Kinds   *[]Kind
+	Name    *string
+}
+
 type ItemsArgs struct {
 	First  *int64
 	Ids    *[]int64
@@ -234,6 +246,21 @@ func buildZoo(hook func(ctx context.Context, name string) error) *graphql.Schema
 		return &Thing{Item: mkItem(it.Id+1, it.depth+1)}, nil
 	})
 	item.FieldFunc("isKind", func(it *Item, args struct{ K Kind }) bool { return it.Kind == args.K })
+	item.FieldFunc("search", func(ctx context.Context, it *Item, args SearchArgs) ([]*Item, error) {
+		if err := enter(ctx, "search"); err != nil {
+			return nil, err
+		}
+		if it.depth >= 3 {
+			return nil, nil
+		}
+		return []*Item{mkItem(it.Id+3, it.depth+1)}, nil
+	})
+	item.FieldFunc("matches", func(it *Item, args struct {
+		Filters *[]Filter
+		Matrix  *[][]int64
+	}) bool {
+		return args.Filters != nil || args.Matrix != nil
+	})
 	// fields with a parallelism hint (schemabuilder.NumParallelInvocationsFunc): the executor splits the
 	// sources of such a field over that many work units, whatever the function returns and however many
 	// sources there are (none, when every parent object is null). parB*: batch field funcs; parP*: plain
@@ -337,6 +364,19 @@ type Device struct {
 	IsOn bool
 }
 
+// UserFilter / Tag: composite argument shapes for the gateway's services.
+type Tag struct {
+	Key    string
+	Values []string
+}
+
+type UserFilter struct {
+	Name *string
+	Ids  []int64
+	Tags []Tag
+	Grid [][]int64
+}
+
 // clientHook observes / perturbs one federated sub-query. It is called before
 // the sub-query is forwarded; a non-nil error is returned instead of
 // forwarding.
@@ -416,6 +456,16 @@ func buildGateway(resolverHook func(ctx context.Context, name string) error) (*g
 		}
 		return []*User{{Id: 1, OrgId: 1, Name: args.Name}}, nil
 	})
+	s1.Query().FieldFunc("usersFiltered", func(ctx context.Context, args struct {
+		Filters *[]UserFilter
+		Where   *UserFilter
+		Grid    *[][]int64
+	}) ([]*User, error) {
+		if err := enter(ctx, "s1.usersFiltered"); err != nil {
+			return nil, err
+		}
+		return []*User{{Id: 3, OrgId: 1, Name: "u3"}}, nil
+	})
 	s1.Query().FieldFunc("s1echo", func(ctx context.Context, args struct{ S string }) (string, error) {
 		if err := enter(ctx, "s1.s1echo"); err != nil {
 			return "", err
@@ -436,6 +486,15 @@ func buildGateway(resolverHook func(ctx context.Context, name string) error) (*g
 		return args.Keys
 	}))
 	device.Key("id")
+	user.FieldFunc("nearby", func(ctx context.Context, u *User, args struct {
+		Where *[]UserFilter
+		Grid  *[][]int64
+	}) (bool, error) {
+		if err := enter(ctx, "s1.nearby"); err != nil {
+			return false, err
+		}
+		return args.Where != nil, nil
+	})
 	user.FieldFunc("device", func(ctx context.Context, u *User) (*Device, error) {
 		if err := enter(ctx, "s1.device"); err != nil {
 			return nil, err
@@ -478,6 +537,15 @@ func buildGateway(resolverHook func(ctx context.Context, name string) error) (*g
 			return "", err
 		}
 		return "hi " + u.Name, nil
+	})
+	user2.FieldFunc("tagged", func(ctx context.Context, u *UserS2, args struct {
+		Tags *[]Tag
+		Grid *[][]int64
+	}) (bool, error) {
+		if err := enter(ctx, "s2.tagged"); err != nil {
+			return false, err
+		}
+		return args.Tags != nil, nil
 	})
 	s2.Query().FieldFunc("s2root", func(ctx context.Context) (string, error) {
 		if err := enter(ctx, "s2.s2root"); err != nil {
